@@ -332,7 +332,7 @@ func (e *Exec) Tables() MemTables {
 }
 
 // Key is the canonical state key: for every occupied header slot (slot, location word, on-disk
-// length word), the occupancy map, and the file length. Chunk contents and timestamps are not part
+// length word), the occupancy map, the file length, and a rendering of every further field of Region. Chunk contents and timestamps are not part
 // of it: no branch of mca.go depends on payload bytes or on timestamp values (they are only
 // stored), and every operation addresses the device absolutely (asserted dynamically through
 // Dev.RelAccess), so two executions with equal keys have the same futures up to those values.
@@ -368,5 +368,7 @@ func (e *Exec) Key() string {
 	b = append(b, 0xff, 0xff, 0xff)
 	n := e.Dev.Size()
 	b = append(b, byte(n>>32), byte(n>>24), byte(n>>16), byte(n>>8), byte(n))
+	// every other field the Region struct has (none today): see VerifExtraState
+	b = append(b, region.VerifExtraState(e.R)...)
 	return string(b)
 }
